@@ -3561,16 +3561,24 @@ class Association(threading.Thread):
             self.abort()
             return
 
+        # N-EVENT-REPORT requests are served in a thread of their own, maybe
+        #   while another request is being served (see
+        #   DIMSEServiceProvider.receive_primitive()): the C-CANCEL requests
+        #   received for that one must be left alone
+        clear_cancel = not isinstance(msg, N_EVENT_REPORT)
+
         # Run corresponding Service Class in SCP mode
         try:
             # Clear out any C-CANCEL requests received beforehand
-            self.dimse.cancel_req = {}
+            if clear_cancel:
+                self.dimse.cancel_req = {}
             # In case the SCP calls one of the send_* methods
             self._is_paused = True
             service_class.SCP(msg, context)
             self._is_paused = False
             # Clear out any unacted upon requests received during
-            self.dimse.cancel_req = {}
+            if clear_cancel:
+                self.dimse.cancel_req = {}
         except NotImplementedError:
             # SCP isn't implemented
             LOGGER.error(
